@@ -130,6 +130,18 @@ theorem read_first_unsafe : ∃ t s, ApiFine.run .readFirst {} t = some s ∧ s.
   | none => simp [hr] at h
   | some s => exact ⟨ApiFine.d28, s, hr, by simpa [hr] using h⟩
 
+/-- at the access level too, a Start on a plan that has been executed is refused — at its waiter lookup
+    while the plan runs, at its decision once it has finished — and a stale read is refused -/
+theorem fine_start_on_executed_rejected (s : ApiFine.S) (st : Status) (stl : Bool) (h : ApiFine.Inv s) (he : s.execs = 1)
+    (hp : s.pc = .haveRead st stl) : ApiFine.step .waiterFirst s .decide = some ({ s with pc := .idle }, .rejected) :=
+  ApiFine.decide_rejects_executed s st stl h he hp
+theorem fine_start_on_running_rejected (s : ApiFine.S) (hw : s.waiter = true) (hp : s.pc = .entered) :
+    ApiFine.step .waiterFirst s .lookWaiter = some ({ s with pc := .idle }, .rejected) :=
+  ApiFine.lookup_rejects_running s hw hp
+theorem fine_stale_rejected (s : ApiFine.S) (st : Status) (hp : s.pc = .haveRead st true) :
+    ApiFine.step .waiterFirst s .decide = some ({ s with pc := .idle }, .rejected) :=
+  ApiFine.decide_rejects_stale s st hp
+
 /-! ### non-vacuity: two racing Starts, the engine, a third Start after the end -/
 example : (run {} [.start, .start, .engineRunning, .start, .engineFinish true, .start]).map (fun s => (s.execs, s.stored, s.waiter)) =
     some (1, .completed, false) := by decide
